@@ -132,6 +132,8 @@ def install(policy, func, ordinal, inv, havoc=None, havoc_fields=(), name=None, 
       ex.check_goal(path, ob('INV-step'), inv_at(i + 1))
       raise I.PathEnd()
     do_havoc('end')
+    # the path continues after the loop: record that the loop was passed
+    path.event('loop', f'{func}.{label}')
     if is_for:
       g = inv_at(n)
       path.assume(g if not isinstance(g, bool) else g)
